@@ -1,5 +1,5 @@
 CONSTANTS
-  SampleMod = 10
+  SampleMod = 20
   MaxOps = 2
   Scripted = FALSE
   ExcuseKF = TRUE
